@@ -87,6 +87,9 @@ func traceAPIHistories(r *evid.Run, nHist, maxCalls int) {
 		var held []func(func(*gtree.WalkerNode, error) bool) // iterators made earlier in this history
 		for i := 0; i < ncalls; i++ {
 			x := rng.Intn(10)
+			if h%2 == 1 && x >= 1 && x <= 6 && rng.Intn(3) == 0 {
+				x = 9 // more operations
+			}
 			switch {
 			case len(nodes) == 1 || x == 0:
 				nm := names[rng.Intn(len(names))]
@@ -99,7 +102,11 @@ func traceAPIHistories(r *evid.Run, nHist, maxCalls int) {
 				descs = append(descs, fmt.Sprintf("NewRoot(%q) -> #%d", c.Seq(nm), g.ID))
 			case x <= 6:
 				p := 1 + rng.Intn(len(nodes)-1)
-				if wide == 0 || rng.Intn(3) > 0 {
+				// odd histories: "grow and print": Adds below any node (many inner nodes at every depth), operations
+				// often: after each of them the new nodes draw the indexes of older ones
+				if h%2 == 1 {
+					// p stays uniform
+				} else if wide == 0 || rng.Intn(3) > 0 {
 					if wide == 0 {
 						wide = p
 					}
@@ -163,6 +170,10 @@ func traceAPIHistories(r *evid.Run, nHist, maxCalls int) {
 			default:
 				p := rng.Intn(len(nodes)) // 0 = nil
 				kind := []string{"text", "tree", "walk", "mkdir"}[rng.Intn(4)]
+				if h%2 == 1 {
+					p = 1 // the first tree of the history, again and again
+					kind = []string{"text", "tree", "walk", "tree"}[rng.Intn(4)]
+				}
 				g := noneGot()
 				cb := tok.WithBranches(c, 4) // decodable branch strings are those of TraceConc itself
 				cb.LD, cb.LI, cb.MD, cb.MI = c.LD, c.LI, c.MD, c.MI
